@@ -296,7 +296,7 @@ def r1b_text_parsers(ctx) -> None:
                     defs = [st.value for st in walk_no_nested(f.node) if isinstance(st, ast.Assign) and any(isinstance(t, ast.Name) and t.id == e.id for t in st.targets)]
                     return bool(defs) and all(selector_regex(d, depth + 1) for d in defs)
                 return unparse(e).replace('"', "'") == "self.pattern.replace('*', '.*')"
-            if f.qual == "sigma.conditions.ConditionSelector.resolve_referenced_detections" and selector_regex(c.args[0]):
+            if f.cls is not None and f.cls.qual == "sigma.conditions.ConditionSelector" and selector_regex(c.args[0]):
                 r.ok("C07.R1", f.qual, "re.compile of a selector pattern: its alphabet is letters, digits, '_', '-' and '*' (C02.R4), so the expression is always valid", loc)
                 continue
             def converted(fi, call, exc, depth=0) -> bool:
